@@ -115,6 +115,7 @@ vpv_native!(c33_heartbeat_and_sweep, "C33/Coordinator::heartbeat + health_sweep/
             // ages: well inside, one second inside, one second past the timeout, just short of / past three intervals, far past
             let mut ages: Vec<u64> = vec![0, timeout_s.saturating_sub(1), timeout_s + 1, (3 * interval_s).saturating_sub(1), 3 * interval_s + 1, 10 * timeout_s];
             ages.sort(); ages.dedup();
+            ages.retain(|a| *a != timeout_s); // exactly at the threshold the wall clock decides (the real elapsed time is age + a few microseconds)
             for age in ages {
                 let good = vpv_enum_try(|| format!("status={:?} heartbeat_interval={}s heartbeat_timeout={}s last heartbeat {}s ago", status(st), interval_s, timeout_s, age), || {
                     let id = WorkerId(String::from("w0"));
